@@ -650,6 +650,7 @@ impl Task {
                             || iter.state().is_abort()
                     }) {
                         self.set_state(TaskState::Skipped);
+                        self.persist();
                     }
                 }
 
@@ -1099,6 +1100,8 @@ impl Task {
                 });
 
                 if is_updated {
+                    // no task event follows for the ancestor: write its row now
+                    t.persist();
                     break;
                 }
             }
@@ -1106,5 +1109,16 @@ impl Task {
 
         // also set the to current task
         self.set_data(vars);
+        if !vars.is_empty() {
+            self.persist();
+        }
+    }
+
+    /// write the task row without raising a task event
+    /// (for changes that no event of this task follows)
+    pub(crate) fn persist(&self) {
+        if let Some(task) = self.proc.task(&self.id) {
+            let _ = self.runtime.cache().upsert(&task);
+        }
     }
 }
